@@ -46,13 +46,23 @@ structure WR where
   lastError  : String := ""
   deriving DecidableEq, Repr, Inhabited
 
-/-- `Proxy.WatchedResources`. -/
-abbrev State := Ty → Option WR
+/-- `Proxy.WatchedResources`. A structure around the lookup function (not a bare function type):
+    compiled code would eta-expand every function *returning* a bare function and re-evaluate its
+    body on each lookup. -/
+structure State where
+  get : Ty → Option WR
 
-def State.empty : State := fun _ => none
+instance : CoeFun State (fun _ => Ty → Option WR) := ⟨State.get⟩
+
+@[ext] theorem State.ext' {a b : State} (h : ∀ t, a t = b t) : a = b := by
+  cases a; cases b; congr; funext t; exact h t
+
+def State.empty : State := ⟨fun _ => none⟩
 
 def State.set (s : State) (t : Ty) (v : Option WR) : State :=
-  fun t' => if t' = t then v else s t'
+  ⟨fun t' => if t' = t then v else s t'⟩
+
+@[simp] theorem State.empty_get (t : Ty) : State.empty t = none := rfl
 
 @[simp] theorem State.set_same (s : State) (t : Ty) (v : Option WR) : (s.set t v) t = v := by
   simp [State.set]
